@@ -128,8 +128,8 @@ impl<T: Alignment> Write for AlignedCursor<T> {
         }
 
         let cap = self.vec.len().saturating_mul(std::mem::size_of::<T>());
-        let rem = cap - self.pos;
-        if rem < len {
+        // Note that the position can be past the end of the storage
+        if cap < self.pos + len {
             self.vec.resize(
                 (self.pos + len).div_ceil(std::mem::size_of::<T>()),
                 T::default(),
